@@ -223,6 +223,9 @@ def generate(rng, tier):
             op = {"op": "alias", "dst": dst, "a": rng.choice(sorted(live))}
         elif r < 0.98:
             op = {"op": "copy", "dst": dst, "a": rng.choice(sorted(live))}
+            if rng.random() < 0.4:
+                # the text travels: through a queue between processes (pickle), or is deep-copied
+                op["how"] = rng.choice(["pickle", "pickle", "deepcopy"])
         else:
             op = {"op": "drop", "a": rng.choice(sorted(live))}
         op["by"] = by
@@ -881,7 +884,19 @@ def apply(w, op):
     elif k == "copy":
         if op["a"] not in w.real:
             return
-        x = CHText(w.real[op["a"]])
+        src = w.real[op["a"]]
+        how = op.get("how")
+        if how and type(src) in (CHText, CHText.Chunk):
+            import copy
+            import pickle
+            try:
+                x = pickle.loads(pickle.dumps(src)) if how == "pickle" else copy.deepcopy(src)
+            except Exception as e:
+                raise Violation("text", f"{how}-raised-{type(e).__name__}", repr(e))
+            st["travelled_texts"] = st.get("travelled_texts", 0) + 1
+            w.store(op["dst"], x, MObj(w.model[op["a"]].kind, w.model[op["a"]].cells, how))
+            return
+        x = CHText(src)
         w.store(op["dst"], x, MObj("T", w.model[op["a"]].cells, "copy"))
     elif k == "drop":
         w.real.pop(op["a"], None)
